@@ -63,6 +63,7 @@ class Gen:
         self.keep_sat = keep_sat
         self.feasible = True
         self.operands_used = set()
+        self.cinfo = {}      # constraint id -> (class, optional) of the accepted constraint declarations
         self.focus = profile.startswith("focus_")
         if self.focus:
             self.invalid_p = 0.0
@@ -102,9 +103,12 @@ class Gen:
                     return "skipped"
                 self.feasible = False        # a tenth of the conflicts is kept: infeasible problems are inputs too
                 self.kinds["infeasible_scripts"] = self.kinds.get("infeasible_scripts", 0) + 1
+        n0 = len(self.real.problem.constraints) if self.real.problem is not None else 0
         r = self.real.step(d)
         self.real.results.append(r)
         self.script.append(d)
+        if d["op"] == "constraint" and self.real.problem is not None and len(self.real.problem.constraints) == n0 + 1:
+            self.cinfo[n0] = (d["c"][0], bool(d.get("optional")))
         k = d["op"] if d["op"] != "constraint" else "c:" + d["c"][0]
         self.kinds[k] = self.kinds.get(k, 0) + 1
         if r != "ok":
@@ -218,6 +222,8 @@ class Gen:
         rng = self.rng
         self.nc += 1
         size = rng.choice([2, 2, 3] + ([4, 5] if self.thorough else []))
+        if rng.random() < 0.08:
+            size = rng.choice([10, 11])       # unit names with a two-digit index
         if rng.random() < self.invalid_p:
             size = rng.choice([0, 1])
         self.emit({"op": "cumulative", "name": f"CW{self.nc}", "size": size, "prod": rng.choice([1, 2, 3, 7]),
@@ -405,7 +411,14 @@ class Gen:
             # prefer constraints no connective has taken yet: "an operand is not enforced on its own" can only be
             # observed on a constraint that would otherwise be enforced
             fresh = [i for i in range(n) if i not in self.operands_used]
-            i = rng.choice(fresh) if fresh and rng.random() < 0.6 else rng.randrange(n)
+            # nesting: a fresh connective (an optional one first) as operand of the next connective
+            conn = [i for i in fresh if self.cinfo.get(i, ("", False))[0] in
+                    ("not", "or", "and", "xor", "implies", "ifThenElse")]
+            optconn = [i for i in conn if self.cinfo[i][1]]
+            if conn and rng.random() < 0.35:
+                i = rng.choice(optconn) if optconn and rng.random() < 0.7 else rng.choice(conn)
+            else:
+                i = rng.choice(fresh) if fresh and rng.random() < 0.6 else rng.randrange(n)
             self.operands_used.add(i)
             return ("ref", i)
         return ("raw", self.raw_fml())
@@ -417,12 +430,42 @@ class Gen:
             (self.g_fragc if self.frag else self.g_taskc)(optional=rng.random() < 0.1)
             if not self.real.problem.constraints:
                 return
+        if rng.random() < 0.15:
+            # nesting macro: an inner connective (optional half of the time) and right away an outer one over it, of the
+            # same kind two times out of three (a disjunction of disjunctions, a conjunction of conjunctions, ...)
+            ki = rng.choice(["or", "or", "and", "xor", "not"])
+            inner = {"or": lambda: ("or", [self.operand(), self.operand()]), "and": lambda: ("and", [self.operand(), self.operand()]),
+                     "xor": lambda: ("xor", self.operand(), self.operand()), "not": lambda: ("not", self.operand())}[ki]()
+            d = {"op": "constraint", "c": inner}
+            if rng.random() < 0.5:
+                d["optional"] = True
+            before = self.nconstraints()
+            self.emit(d)
+            if self.nconstraints() != before + 1:
+                return
+            me = ("ref", before)
+            self.operands_used.add(before)
+            ko = ki if rng.random() < 0.67 else rng.choice(["or", "and", "xor", "not", "implies"])
+            outer = {"or": lambda: ("or", [me, self.operand()]), "and": lambda: ("and", [me, self.operand()]),
+                     "xor": lambda: ("xor", me, self.operand()), "not": lambda: ("not", me),
+                     "implies": lambda: ("implies", self.cond(), [me])}[ko]()
+            self.emit({"op": "constraint", "c": outer})
+            return
         k = rng.choice(["not", "or", "and", "xor", "implies", "ifThenElse", "fromExpr"])
         ops = lambda: [self.operand() for _ in range(rng.randint(1, 3))]
         if k == "not":
             c = ("not", self.operand())
         elif k in ("or", "and"):
             c = (k, ops())
+            # a disjunction of disjunctions / conjunction of conjunctions: an earlier connective of the same kind
+            # (optional ones first) among the operands
+            same = [i for i in range(self.nconstraints()) if self.cinfo.get(i, ("", False))[0] == k
+                    and i not in self.operands_used]
+            if same and rng.random() < 0.6:
+                opt = [i for i in same if self.cinfo[i][1]]
+                i = rng.choice(opt) if opt and rng.random() < 0.8 else rng.choice(same)
+                self.operands_used.add(i)
+                c = (k, [("ref", i)] + c[1][:2])
         elif k == "xor":
             c = ("xor", self.operand(), self.operand())
         elif k == "implies":
@@ -432,7 +475,7 @@ class Gen:
         else:
             c = ("fromExpr", self.raw_fml())
         d = {"op": "constraint", "c": c}
-        if rng.random() < 0.12:
+        if rng.random() < 0.2:
             d["optional"] = True
         before = self.nconstraints()
         self.emit(d)
@@ -511,10 +554,19 @@ class Gen:
                 lo = rng.randint(0, period - 1)
                 out.append((lo, min(period, lo + rng.randint(1, 3)) if rng.random() < 0.93 else period + 1))
             return list(dict.fromkeys(out))
+        def workload():
+            # a cumulative worker that several tasks use can be busy for more than the interval lasts: bounds around
+            # and above the interval length say something there
+            cums = [n for n in res if n in self.real.cumuls and self.nbusy(n) >= 2]
+            if cums and rng.random() < 0.5:
+                rc = rng.choice(cums)
+                return ("workload", rc, [(a, b_, rng.choice([b_ - a, b_ - a + 1, 2 * (b_ - a) - 1, 1]))
+                                         for a, b_ in dict.fromkeys(ivs())], rng.choice(["max", "max", "exact", "min"]))
+            return ("workload", r, [(a, b_, rng.choice([0, 1, 2, b_ - a, b_ - a + 1])) for a, b_ in dict.fromkeys(ivs())],
+                    self.count_kind())
         forms = [
             lambda: ("unavailable", r, ivs()),
-            lambda: ("workload", r, [(a, b_, rng.choice([0, 1, 2, b_ - a, b_ - a + 1])) for a, b_ in dict.fromkeys(ivs())],
-                     self.count_kind()),
+            lambda: workload(),
             lambda: ("interrupted", r, list(dict.fromkeys(ivs()))),
             lambda: ("periodicallyUnavailable", rp,
                      in_period() if rng.random() < 0.8 else [(a, min(b_, a + 3)) for a, b_ in dict.fromkeys(ivs())][:2],
@@ -673,6 +725,14 @@ class Gen:
                 self.g_select()
                 if self.nselects():
                     self.emit({"op": "require", "task": t, "res": ("select", self.nselects() - 1)})
+        if rng.random() < 0.2:
+            # a cumulative worker shared by all the tasks: several of them may use it at the same time
+            self.g_cumulative()
+            if self.real.cumuls:
+                cn = list(self.real.cumuls)[-1]
+                for t in self.tasks():
+                    if not self.real.tasks[t]._required_resources:
+                        self.emit({"op": "require", "task": t, "res": ("cumul", cn)})
         for t in self.tasks():
             if self.real.tasks[t]._required_resources:
                 continue
